@@ -193,6 +193,20 @@ Definition native_recorder_n (n : nat) (cfg : pconfig) (c : conv) (u : universe)
 Definition native_events cfg c u root (toks : list tok) := native_events_n (length toks) cfg c u root toks.
 Definition native_parse cfg c u root (toks : list tok) := native_parse_n (length toks) cfg c u root toks.
 
+(* the same loop against a parser whose nodes all keep the map they were started with (no
+   SkipNode, no UnionNode): a pure function of the document, used to state the agreement of the
+   two pumps for EVERY document (C08_pumps_agree_plain) *)
+Fixpoint plain_loop (pending : nsmap) (stack : list nsmap) (toks : list tok) : list pevent :=
+  match toks with
+  | [] => []
+  | TNs p uri :: r => PStartNs p uri :: plain_loop (ns_set p uri pending) stack r
+  | TStart q attrs _ :: r =>
+      let ns := merge_parent stack pending in
+      PStart q attrs ns :: plain_loop [] (ns :: stack) r
+  | TEnd q text tail :: r => PEnd q text tail :: plain_loop pending (tl stack) r
+  end.
+Definition native_pump_plain (toks : list tok) : list pevent := plain_loop [] [] toks.
+
 (* ---------------------------------------------------------------- lxml handler, whole run *)
 (* the events RecordParser holds when the parser raises in the middle: up to the failing one *)
 Section Emitted.
